@@ -170,4 +170,20 @@ CHECKS = {
               'and a malformed stream for dict_to_smpp_message.'),
         note=COMMON_NOTE + 'json.dumps/json.loads are outside the model (tree level). isoformat/fromisoformat and float exactness of total_seconds()/timedelta(seconds=) are modelled and swept, not verified; tzinfo reduced to a whole-second utcoffset. The extractor recognises five argument patterns; any other expression becomes Conv.unknown and breaks shape_ok (then the check searches for a failing message).',
         technique='Lean 4 theorems over a model regenerated from the source (kernel-evaluated shape obligations + generic round-trip proof by induction over the field list); differential correspondence'),
+    'C19': dict(
+        text=('Proof (file-system and dictionary level) + correspondence and crash injection on the real code. Props/C19.lean over a '
+              'model of PersistingDict on an abstract file system (after repairs fc383ea, 090b314, a97f9c4, 36addf8): a crash after '
+              'any prefix of the system calls of _save, including any partial write, leaves the store file with its old or its '
+              'complete new content and touches no other file; hence a crash during any dictionary operation leaves a file that '
+              'loads as the dictionary before or after it; after any history of assignments, deletions and pops a new instance '
+              'loads exactly what the old one held; an assignment re-synchronises whatever was changed in place; the five store '
+              'files and their temporaries are pairwise distinct paths for every directory and name. The serialisation round trip '
+              'is a hypothesis discharged by C12 for messages. Kernel-checked counter-examples document the repaired defects. '
+              'Tied to correlator.py by the traced system calls of the real _save, by reloading a new SimpleCorrelator after every '
+              'operation of generated histories (segmented messages, rejected segments, receipts, sweeps) and by restarting runs '
+              'at random points (same outputs, log_id/extra_data of receipts included), and by crashes injected at every traced '
+              'system call and at partial writes. NOT a theorem: that every correlator operation assigns back each entry it changes '
+              'in place (checked by the reload comparison on generated histories).'),
+        note=COMMON_NOTE + 'File-system abstraction: os.replace atomic, a crash loses at most a suffix of what was written to the open file; process crash, not power loss (no fsync ordering). time.monotonic assumed to keep running across the restart.',
+        technique='Lean 4 theorems (case analysis over crash prefixes, induction over operation histories); traced-syscall correspondence; restart equivalence and crash injection on the real code'),
 }
